@@ -18,25 +18,38 @@ FIRST_MISS = {
     "C09F": "needs a composition above ~1 MDa, outside the stated domain (three such compositions with short requests were added)",
     "C10F": "mz.rs's two functions were proved about but never called directly (now every non-zero charge, bitwise tie to Mz.v)",
     "C13F": "offsets below 1e-9 were never drawn, and the shift specification tolerated 1e-9 absolute (now one rounding, 1e-15 relative)"}
+PRE4 = {
+    "C01G": "groups nested more than 8 deep: the random grammar rarely goes beyond 3 -- towers 6..14 deep were added",
+    "C08G": "a request that resolves to exactly one peak: none in the pool -- `1usize` and a 50% fraction on water were added",
+    "C11H": "a leading element pruned to nothing followed by more elements: fixed cases Br3H2@0.5, Cl4C2H@0.9999, Se4H2@0.3 added; first reported "
+            "`no-failing-input-found`, then the specification evaluator learned that every returned peak must sit at an isotopologue mass of the whole composition",
+    "C13H": "scale factors 0, subnormal and negative were added (and the scale specification allows half a subnormal spacing)",
+    "C14H": "non-positive filter thresholds with a non-zero shift were added to the fused operation's cases",
+    "C15G": "first reported `no-failing-input-found`: only the first of the two consecutive count calls of a record was checked exactly; now both are",
+    "C17G": "a leak on the error path is invisible to every later call: the child now carries a counting allocator sampled around each call (quick tier, no sanitizer needed)"}
 ids = sorted(d for d in os.listdir(S) if re.match(r"^C\d\d[A-Z]$", d))
 rows, caught = [], 0
 for i in ids:
     m = json.load(open(os.path.join(S, i, "meta.json")))
     r = json.load(open(os.path.join(S, i, "result.json")))
-    rnd = {"A": 1, "B": 1, "C": 2, "D": 2, "E": 3, "F": 3}[i[-1]]
+    rnd = {"A": 1, "B": 1, "C": 2, "D": 2, "E": 3, "F": 3, "G": 4, "H": 4}[i[-1]]
     for chk, v in r.items():
         ok = v["exit"] == 1 and "VIOLATION" in v["verdict"]
         caught += ok
         clip = lambda t: re.sub(r"\s+", " ", str(t)).replace("|", "/")[:140]
         rows.append("| %s | %d | %s | %s | %s | %s | %s |" % (i, rnd, chk, "caught" if ok else "MISSED", v.get("replay_kind", ""), clip(m.get("breaks", "")), clip(m.get("needs_to_manifest", ""))))
 out = ["# Seeded breaking changes", "",
-       "Three rounds of fresh sub-agents (one property text and a scratch worktree each, nothing from /verif) wrote %d changes that break a property while the crate "
+       "Four rounds of fresh sub-agents (one property text and a scratch worktree each, nothing from /verif) wrote %d changes that break a property while the crate "
        "compiles and the 41 pinned tests pass. Each was confirmed here (suite passes with it; its demonstration fails with it and passes without) before being kept: "
        "`patch.diff`, the demonstration, `meta.json` (the author's description plus our confirmation) and `result.json` (the verdict of `tools/run_seeded.py <id>`: "
        "apply to /repo, run the quick check, revert)." % len(ids), "",
-       "First-run results: round 1: 28 of 34 caught, round 2: 29 of 34, round 3: 27 of 34. Every miss was a generator reach problem, none a model or theorem "
+       "First-run results: round 1: 28 of 34 caught, round 2: 29 of 34, round 3: 27 of 34 (round 4: see below). Every miss was a generator reach problem, none a model or theorem "
        "problem; what was missing:", ""]
 out += ["* `%s` — %s: %s" % (k, k[:3], v) for k, v in FIRST_MISS.items()]
+out += ["", "Round 4 (`..G`, `..H`): all 34 were reported on the first run, 32 with a concrete failing input and 2 (`C11H`, `C15G`) as `no-failing-input-found`. "
+        "This round is not a blind measurement: the authors' reports were read before the checks were run, and where a report named something the generators "
+        "visibly lacked it was added first:", ""]
+out += ["* `%s` — %s" % (k, v) for k, v in PRE4.items()]
 out += ["", "After those additions all %d of %d are caught by the current checks (last full run of all patches: see the `result.json` files), each with a concrete failing input "
         "in the replay (`replay_kind`)." % (caught, len(rows)), "",
         "| id | round | check | verdict | replay | breaks | needs |", "|----|-------|-------|---------|--------|--------|-------|"] + rows
